@@ -198,7 +198,7 @@ def run(ctx):
         return tolB + tolA
 
     # ---------------------------------------------------------------- A. mle (r over 8 decades, scalar and per-cell d)
-    for rep in range(60 if T else 30):
+    for rep in range(120 if T else 60):
         n = rng.choice([1, 3, 6])
         r = np.array([rval() for _ in range(n)])
         percell = rng.random() < 0.4
@@ -228,7 +228,7 @@ def run(ctx):
             goal("Rabs (normal_logpdf %d %s - %s) <= %s" % (k, W.Rlist(z), W.R(got), W.Rup(tol)), [], "icase lgam", {"group": "prior", "k": k})
 
     # ---------------------------------------------------------------- C. nearest-neighbour likelihood, loss
-    for rep in range(40 if T else 20):
+    for rep in range(80 if T else 40):
         n = rng.choice([1, 2, 4, 7])
         r = np.array([rval() for _ in range(n)])
         percell = rng.random() < 0.5
@@ -262,7 +262,7 @@ def run(ctx):
                               {"r": float(r[0]), "d": float(dv[0]), "mle": m0, "offset": dl})
             evals += 1
 
-    for rep in range(16 if T else 8):
+    for rep in range(32 if T else 16):
         n, k = rng.choice([(2, 1), (3, 2), (4, 3), (5, 2)])
         r = np.array([rval() for _ in range(n)])
         d = dval()
@@ -301,7 +301,8 @@ def run(ctx):
         pdf = lambda rr: math.exp(float(inf._nearest_neighbors(jnp.asarray([rr]), d)(jnp.asarray([lf]))))
         rstar = math.exp(-(lf + (d / 2) * LNPI - math.lgamma(d / 2 + 1)) / d)   # scale where rho V(r) = 1
         val = 0.0
-        for a, b in ((0.0, 0.5 * rstar), (0.5 * rstar, 2 * rstar), (2 * rstar, 8 * rstar)):
+        # beyond r with rho V(r) = 40 the remaining mass is exp(-40)
+        for a, b in ((0.0, 0.5 * rstar), (0.5 * rstar, 2 * rstar), (2 * rstar, rstar * max(4.0, 40.0 ** (1.0 / d))), ):
             val += quad(pdf, a, b, limit=60, epsabs=1e-10, epsrel=1e-9)[0]
         evals += 1
         if abs(val - 1.0) > 1e-5:
@@ -309,7 +310,7 @@ def run(ctx):
                           {"d": d, "log_density": lf, "integral": val, "call": "exp(_nearest_neighbors([r], d)([f])) integrated over r"})
 
     # ---------------------------------------------------------------- D. k-NN Poisson model
-    for rep in range(12 if T else 6):
+    for rep in range(24 if T else 12):
         n, k = rng.choice([(1, 1), (2, 2), (3, 3), (2, 4)])
         dist = np.sort(np.array([[rval() for _ in range(k)] for _ in range(n)]), axis=1)
         shuffled = np.array([nrng.permutation(row) for row in dist])
@@ -379,7 +380,7 @@ def run(ctx):
             s = np.sort(mvals)
             lo = int(math.floor(0.01 * (n - 1)))
             tolq = 8 * U * (float(np.max(np.abs(mvals))) + 10)
-            stmt = ("forall lgam r d, rsort (map2 (mle lgam) r d) = %s -> Rabs (compute_mu lgam r d - %s) <= %s" % (W.Rlist(s), W.R(got), W.Rup(tolq)))
+            stmt = ("forall lgam r d, rsort (map2 (fun r0 d0 => mle lgam r0 d0) r d) = %s -> Rabs (compute_mu lgam r d - %s) <= %s" % (W.Rlist(s), W.R(got), W.Rup(tolq)))
             tac = ("intros lgam r d H; unfold compute_mu, quantile_list; rewrite H; rewrite (quantile_sorted_at _ _ %d) by (simpl; lra); "
                    "unfold interp_at; simpl; interval with (i_prec 80)" % lo)
             goals.append((stmt, tac))
